@@ -249,6 +249,38 @@ func checkC06(c *vlib.Ctx) (string, string) {
 		ck.Try(c06Case{l, int(i % 2)})
 		c.SampleAt(i+1, func() any { return c06Case{l, int(i % 2)} })
 	})
+	// every accepted max-age value: Config() reports it, a middleware rebuilt from Config() renders it identically,
+	// and the rendering is the decimal number (0 for -1, absent for 0)
+	c.ParRange(86402, 512, "C06 max-age sweep", func(i int64) {
+		a := int(i) - 1
+		cfg := cors.Config{Origins: []string{"https://a.b"}, MaxAgeInSeconds: a}
+		m, err := cors.NewMiddleware(cfg)
+		if err != nil {
+			ck.Report(c06Case{Cfg: CfgLit{Origins: cfg.Origins, MaxAge: a}}, vlib.Failf("MaxAgeInSeconds %d rejected: %v", a, err))
+			return
+		}
+		got := m.Config()
+		m2, err2 := cors.NewMiddleware(*got)
+		req := vlib.Req{Method: "OPTIONS", Hdr: map[string][]string{"Origin": {"https://a.b"}, "Access-Control-Request-Method": {"GET"}}}
+		r1 := vlib.Serve(m.Wrap(noopHandler), nil, req, nil)
+		want := []string{fmt.Sprint(a)}
+		if a == -1 {
+			want = []string{"0"}
+		} else if a == 0 {
+			want = nil
+		}
+		bad := got.MaxAgeInSeconds != a || err2 != nil || fmt.Sprint(r1.Hdr["Access-Control-Max-Age"]) != fmt.Sprint(want)
+		if !bad {
+			r2 := vlib.Serve(m2.Wrap(noopHandler), nil, req, nil)
+			bad = r1.Sig() != r2.Sig()
+		}
+		if bad {
+			ck.Report(c06Case{Cfg: CfgLit{Origins: cfg.Origins, MaxAge: a}}, vlib.Failf("MaxAgeInSeconds %d: Config() reports %d, Access-Control-Max-Age is %q (want %q), rebuilding from Config(): err=%v", a, got.MaxAgeInSeconds, r1.Hdr["Access-Control-Max-Age"], want, err2))
+		}
+	})
+	c.States.Add(86402)
+	c.Transitions.Add(3 * 86402)
+	c.Set("max_age_values_swept", 86402)
 	c.Set("configurations_generated", len(fam))
 	c.Set("configurations_accepted", c.Nontrivial.Load())
 	return levelMC, rule
